@@ -693,4 +693,213 @@ Proof.
     f_equal. unfold St, F. do 3 f_equal. fold fe. lia.
 Qed.
 
+
+(* ---- function bodies: where-locals, body, Return *)
+Lemma clocals_ok : forall n, expr_ok n -> forall vg vn vf ce fi fp frs below,
+  cenv_rel ce vg vn vf -> length below = fp ->
+  (exists upper, below = upper ++ rev (map snd (w_globals W))) ->
+  forall wl L0 L' nk na ip s,
+    bind_locals (fun L e => eval O stale n W vg vn vf L e) L0 wl = Ok L' ->
+    m_last s = w_last W ->
+    at_code fi ip (f_code (fst (clocals ce (map fst L0) wl nk na))) ->
+    consts_at nk (f_consts (fst (clocals ce (map fst L0) wl nk na))) ->
+    nomark (f_code (fst (clocals ce (map fst L0) wl nk na))) ->
+    snd (clocals ce (map fst L0) wl nk na) = map fst L' /\
+    exists k, steps k (St fi ip fp frs (rev (map snd L0) ++ below) s)
+              = Some (St fi (ip + csize (f_code (fst (clocals ce (map fst L0) wl nk na)))) fp frs
+                         (rev (map snd L') ++ below) s).
+Proof.
+  intros n IH vg vn vf ce fi fp frs below Hrel Hlen [upper Hup].
+  induction wl as [|[x e] wl IHwl]; intros L0 L' nk na ip s H Hl Ha Hk Hm.
+  - simpl in *. inversion H; subst L'. split; [reflexivity|]. exists 0. simpl. rewrite Nat.add_0_r. reflexivity.
+  - simpl in H. apply bind_ok in H. destruct H as (v & Hv & H).
+    simpl in Ha, Hk, Hm |- *.
+    set (f1 := cexpr (with_locals ce (Some (map fst L0))) e nk na) in *.
+    specialize (IHwl (L0 ++ [(x, v)]) L' (nk + length (f_consts f1)) (f_na f1)).
+    rewrite map_app in IHwl. simpl in IHwl.
+    destruct (clocals ce (map fst L0 ++ [x]) wl (nk + length (f_consts f1)) (f_na f1)) as [f2 ls'] eqn:Ecl.
+    simpl in *.
+    apply at_code_app in Ha. destruct Ha as [Ha1 Ha2].
+    apply consts_at_app in Hk. destruct Hk as [Hk1 Hk2].
+    apply nomark_app in Hm. destruct Hm as [Hm1 Hm2].
+    assert (Hs : stack_ok (with_locals ce (Some (map fst L0))) L0 fp (rev (map snd L0) ++ below)).
+    { split.
+      - exists (rev (map snd L0) ++ upper). rewrite Hup. rewrite app_assoc. reflexivity.
+      - simpl. split; [reflexivity|]. exists [], below. split; [reflexivity | exact Hlen]. }
+    destruct (IH _ _ _ _ _ _ Hv (with_locals ce (Some (map fst L0))) fi fp frs
+                 (cenv_rel_locals _ _ _ _ _ Hrel) nk na ip _ s Hs Hl Ha1 Hk1 Hm1) as [k1 S1].
+    fold f1 in S1.
+    destruct (IHwl (ip + csize (f_code f1)) s H Hl Ha2 Hk2 Hm2) as [E [k2 S2]].
+    split; [exact E|].
+    rewrite map_app, rev_app_distr in S2. simpl in S2.
+    exists (k1 + k2). rewrite (steps_trans _ _ _ _ _ S1 S2). rewrite csize_app, Nat.add_assoc. reflexivity.
+Qed.
+
+Lemma map_fst_combine {A B} : forall (a : list A) (b : list B), length a = length b -> map fst (combine a b) = a.
+Proof. induction a; destruct b; simpl; intros; try discriminate; [reflexivity | f_equal; auto]. Qed.
+Lemma map_snd_combine {A B} : forall (a : list A) (b : list B), length a = length b -> map snd (combine a b) = b.
+Proof. induction a; destruct b; simpl; intros; try discriminate; [reflexivity | f_equal; auto]. Qed.
+
+Lemma call_ok : RelW -> forall n, expr_ok n -> forall i name fd vs v,
+  nth_error (w_fns W) i = Some (name, fd) ->
+  (if Nat.eqb (length (fd_params fd)) (length vs) then
+     bind (bind_locals (fun L' e' => eval O stale n W (fd_nglob fd) (S i) (fd_nforeign fd) L' e')
+                       (combine (fd_params fd) vs) (fd_locals fd))
+          (fun L' => eval O stale n W (fd_nglob fd) (S i) (fd_nforeign fd) L' (fd_body fd))
+   else Wrong) = Ok v ->
+  forall fi ip fp frs stk0 s,
+    (exists upper, stk0 = upper ++ rev (map snd (w_globals W))) -> m_last s = w_last W ->
+    exists k, steps k (mk (F (S i) 0 (length stk0) :: F fi ip fp :: frs) (rev vs ++ stk0) s)
+              = Some (St fi ip fp frs (v :: stk0) s).
+Proof.
+  intros [Hfuns _] n IH i name fd vs v Hi H fi ip fp frs stk0 s Hup Hl.
+  destruct (Hfuns i name fd Hi) as (ce & nk & na & Hch & Hk & Hm & Hrel).
+  destruct (Nat.eqb (length (fd_params fd)) (length vs)) eqn:El; [|discriminate].
+  apply Nat.eqb_eq in El.
+  apply bind_ok in H. destruct H as (L' & HL & Hb).
+  unfold cfun in Hch, Hk, Hm.
+  pose proof (clocals_ok n IH _ _ _ ce (S i) (length stk0) (F fi ip fp :: frs) stk0 Hrel eq_refl Hup
+                (fd_locals fd) (combine (fd_params fd) vs) L' nk na 0 s HL Hl) as CL.
+  rewrite (map_fst_combine _ _ El), (map_snd_combine _ _ El) in CL.
+  destruct (clocals ce (fd_params fd) (fd_locals fd) nk na) as [fl ls] eqn:Ecl. simpl in *.
+  assert (Ha : at_code (S i) 0 ((f_code fl ++ f_code (cexpr (with_locals ce (Some ls)) (fd_body fd)
+                                   (nk + length (f_consts fl)) (f_na fl))) ++ [IReturn])).
+  { exists name, [], []. split; [rewrite app_nil_r; exact Hch | reflexivity]. }
+  apply at_code_app in Ha. destruct Ha as [Ha Har].
+  apply at_code_app in Ha. destruct Ha as [Hal Hab].
+  apply consts_at_app in Hk. destruct Hk as [Hkl Hkb].
+  apply nomark_app in Hm. destruct Hm as [Hm _].
+  apply nomark_app in Hm. destruct Hm as [Hml Hmb].
+  destruct (CL Hal Hkl Hml) as [Els [k1 S1]]. subst ls.
+  assert (Hs : stack_ok (with_locals ce (Some (map fst L'))) L' (length stk0) (rev (map snd L') ++ stk0)).
+  { destruct Hup as [upper Hup]. split.
+    - exists (rev (map snd L') ++ upper). rewrite Hup. rewrite app_assoc. reflexivity.
+    - simpl. split; [reflexivity|]. exists [], stk0. split; reflexivity. }
+  destruct (IH _ _ _ _ _ _ Hb (with_locals ce (Some (map fst L'))) (S i) (length stk0) (F fi ip fp :: frs)
+               (cenv_rel_locals _ _ _ _ _ Hrel) _ _ _ _ s Hs Hl Hab Hkb Hmb) as [k2 S2].
+  assert (S3 : steps 1 (St (S i) (0 + csize (f_code fl) + csize (f_code (cexpr (with_locals ce (Some (map fst L')))
+                           (fd_body fd) (nk + length (f_consts fl)) (f_na fl)))) (length stk0) (F fi ip fp :: frs)
+                           ([v] ++ rev (map snd L') ++ stk0) s)
+               = Some (St fi ip fp frs (v :: stk0) s)).
+  { eapply run_one.
+    - rewrite csize_app in Har. rewrite Nat.add_assoc in Har. exact Har.
+    - simpl. unfold St, mk. simpl. do 2 f_equal.
+      rewrite app_length, rev_length.
+      replace (length (map snd L') + length stk0 - length stk0) with (length (rev (map snd L'))) by (rewrite rev_length; lia).
+      rewrite skipn_length_app. reflexivity. }
+  exists (k1 + (k2 + 1)).
+  unfold St in S1 at 1. simpl in S1.
+  rewrite (steps_trans _ _ _ _ _ S1 (steps_trans _ _ _ _ _ S2 S3)). reflexivity.
+Qed.
+
+
+Lemma nth_error_map_snd {A B} : forall (l : list (A * B)) i b,
+  nth_error (map snd l) i = Some b -> exists a, nth_error l i = Some (a, b).
+Proof.
+  induction l as [|[a b'] l IH]; intros i b; destruct i; simpl; try discriminate.
+  - intro H. inversion H. eauto.
+  - apply IH.
+Qed.
+
+Lemma find_last_nth : forall x vn i (fd : @fdef Q),
+  find_last x (firstn vn (w_fns W)) = Some (i, fd) ->
+  rposition x (map fst (firstn vn (w_fns W))) = Some i /\ exists name, nth_error (w_fns W) i = Some (name, fd).
+Proof.
+  intros x vn i fd H. pose proof (rposition_find_last x (firstn vn (w_fns W))) as R. rewrite H in R.
+  destruct (rposition x (map fst (firstn vn (w_fns W)))) as [j|]; [|contradiction].
+  destruct R as [E R]. subst j. split; [reflexivity|].
+  apply nth_error_map_snd in R. destruct R as [a R]. exists a. eapply nth_error_firstn_some. exact R.
+Qed.
+
+Lemma leb_len_app : forall (vs stk : list (value Q)) n, n = length vs ->
+  Nat.leb n (length (rev vs ++ stk)) = true /\ length (rev vs ++ stk) - n = length stk.
+Proof.
+  intros. subst. rewrite app_length, rev_length. split; [apply Nat.leb_le; lia | lia].
+Qed.
+
+Lemma ok_call : RelW -> forall n, expr_ok n -> forall vg vn vf L f args v ce fi fp frs,
+  eval O stale (S n) W vg vn vf L (ECall f args) = Ok v ->
+  cenv_rel ce vg vn vf ->
+  comp_ok ce L fi fp frs (cexpr ce (ECall f args)) [v].
+Proof.
+  intros HW n IH vg vn vf L f args v ce fi fp frs H Hrel. simpl in H.
+  apply bind_ok in H. destruct H as (vs & Hvs & H).
+  pose proof (ok_args n IH _ _ _ _ _ _ ce fi fp frs Hvs Hrel) as Hargs.
+  pose proof (evals_length _ _ _ Hvs) as Hlen.
+  destruct Hrel as (Hg & Hch & Hfn & [rest Hffi] & Hmem & Hrest).
+  specialize (Hmem f).
+  destruct (index_of f (c_ffi ce)) as [idx|] eqn:Ei.
+  - rewrite Hmem in H. destruct (find_last f (firstn vn (w_fns W))) as [[? ?]|]; [discriminate|].
+    apply (ok_emit ce L fi fp frs (cseq (map (fun a => cexpr ce a) args)) _ (rev vs) [v]
+             (fun nk na => chk16 (length args)
+                (IFFICallFunction idx (length args) (f_na (cseq (map (fun a => cexpr ce a) args) nk na))))).
+    + exact Hargs.
+    + intros. simpl. rewrite Ei. simpl. split; reflexivity.
+    + intros nk na ip stk s Hm Hs Hl. apply chk16_ok in Hm. destruct Hm as [Hm _]. rewrite Hm.
+      simpl. rewrite Hffi. rewrite (nth_error_app_l _ _ _ _ (index_of_nth _ _ _ Ei)).
+      rewrite <- Hlen. rewrite pop_n_rev. rewrite (lift_ok _ _ _ H). reflexivity.
+  - rewrite Hmem in H. destruct (find_last f (firstn vn (w_fns W))) as [[i fd]|] eqn:Ef; [|discriminate].
+    destruct (find_last_nth _ _ _ _ Ef) as [Hr [name Hi]].
+    apply (ok_then ce L fi fp frs (cseq (map (fun a => cexpr ce a) args)) _ (rev vs) [v]
+             (fun _ _ => [chk16 (length args) (ICall (S i) (length args))]) (fun _ _ => [])).
+    + exact Hargs.
+    + intros. simpl. rewrite Ei. rewrite Hch. rewrite rposition_cons. rewrite Hr. simpl.
+      rewrite app_nil_r. split; reflexivity.
+    + intros nk na ip stk s Hm Hs Hl Ha _.
+      apply nomark_one in Hm. destruct Hm as [Hm _]. apply chk16_ok in Hm. destruct Hm as [Hm _].
+      rewrite Hm in *. simpl csize.
+      destruct (leb_len_app vs stk (length args) (eq_sym Hlen)) as [Hle Hsub].
+      assert (S1 : steps 1 (St fi ip fp frs (rev vs ++ stk) s)
+                   = Some (mk (F (S i) 0 (length stk) :: F fi (ip + 5) fp :: frs) (rev vs ++ stk) s)).
+      { eapply run_one; [exact Ha|]. simpl. rewrite Hle, Hsub. reflexivity. }
+      destruct Hs as [Hup _].
+      destruct (call_ok HW n IH i name fd vs v Hi H fi (ip + 5) fp frs stk s Hup Hl) as [k2 S2].
+      exists (1 + k2). rewrite (steps_trans _ _ _ _ _ S1 S2). try rewrite Nat.add_0_r. reflexivity.
+Qed.
+
+Lemma index_of_some_of_ne : forall x l, index_of x l <> None -> exists i, index_of x l = Some i.
+Proof. intros. destruct (index_of x l); [eauto | contradiction]. Qed.
+
+Lemma ok_callable : RelW -> forall n, expr_ok n -> forall vg vn vf L callee args v ce fi fp frs,
+  eval O stale (S n) W vg vn vf L (ECallable callee args) = Ok v ->
+  cenv_rel ce vg vn vf ->
+  comp_ok ce L fi fp frs (cexpr ce (ECallable callee args)) [v].
+Proof.
+  intros HW n IH vg vn vf L callee args v ce fi fp frs H Hrel. simpl in H.
+  apply bind_ok in H. destruct H as (vs & Hvs & H). apply bind_ok in H. destruct H as (c & Hc & H).
+  pose proof (ok_args n IH _ _ _ _ _ _ ce fi fp frs Hvs Hrel) as Hargs.
+  pose proof (IH _ _ _ _ _ _ Hc ce fi fp frs Hrel) as Hcallee.
+  pose proof (evals_length _ _ _ Hvs) as Hlen.
+  apply (ok_then ce L fi fp frs
+           (fun nk na => fapp (cseq (map (fun a => cexpr ce a) args) nk na)
+                              (cexpr ce callee (nk + length (f_consts (cseq (map (fun a => cexpr ce a) args) nk na)))
+                                     (f_na (cseq (map (fun a => cexpr ce a) args) nk na))))
+           _ ([c] ++ rev vs) [v]
+           (fun nk na => [chk16 (length args) (ICallCallable (length args)
+               (f_na (cexpr ce callee (nk + length (f_consts (cseq (map (fun a => cexpr ce a) args) nk na)))
+                                     (f_na (cseq (map (fun a => cexpr ce a) args) nk na)))))])
+           (fun _ _ => [])).
+  - apply (ok_seq2 ce L fi fp frs (cseq (map (fun a => cexpr ce a) args)) (cexpr ce callee)); try assumption.
+    intros. simpl. split; reflexivity.
+  - intros. simpl. rewrite app_nil_r. rewrite <- app_assoc. split; reflexivity.
+  - intros nk na ip stk s Hm Hs Hl Ha _.
+    apply nomark_one in Hm. destruct Hm as [Hm _]. apply chk16_ok in Hm. destruct Hm as [Hm _].
+    rewrite Hm in *. simpl csize.
+    destruct (leb_len_app vs stk (length args) (eq_sym Hlen)) as [Hle Hsub].
+    destruct HW as (Hfuns & Hforeign & Hstale).
+    destruct c; try discriminate. destruct f as [name [|i]|name]; try discriminate.
+    + destruct (stale name (S i)) eqn:Est; [discriminate|].
+      destruct (nth_error (w_fns W) i) as [[name' fd]|] eqn:Hi; [|discriminate].
+      assert (S1 : steps 1 (St fi ip fp frs ([VFun (FNormal name (S i))] ++ rev vs ++ stk) s)
+                   = Some (mk (F (S i) 0 (length stk) :: F fi (ip + 5) fp :: frs) (rev vs ++ stk) s)).
+      { eapply run_one; [exact Ha|]. simpl. rewrite (Hstale _ _ Est). rewrite Hle, Hsub. reflexivity. }
+      destruct Hs as [Hup _].
+      destruct (call_ok (conj Hfuns (conj Hforeign Hstale)) n IH i name' fd vs v Hi H fi (ip + 5) fp frs stk s Hup Hl) as [k2 S2].
+      exists (1 + k2). rewrite <- app_assoc. rewrite (steps_trans _ _ _ _ _ S1 S2). try rewrite Nat.add_0_r. reflexivity.
+    + destruct (mem name (procs O ++ w_foreign W)) eqn:Em; [|discriminate].
+      destruct (index_of_some_of_ne _ _ (Hforeign _ Em)) as [j Hj].
+      exists 1. rewrite <- app_assoc. eapply run_one; [exact Ha|]. simpl. rewrite Hj.
+      rewrite <- Hlen. rewrite pop_n_rev. rewrite (lift_ok _ _ _ H). try rewrite Nat.add_0_r. reflexivity.
+Qed.
+
 End Sim.
